@@ -672,6 +672,7 @@ func runC01(cases string, res *Result) {
 	idx := 0
 	strictDiffs, strictRuns, fresh := 0, 0, 0
 	c01ManyNames(res)
+	c01HeldResults(res)
 	readCases(cases, func(c Case) {
 		if c.str("k") == "probes" {
 			runC01Probes(c, res, dir)
@@ -859,6 +860,95 @@ func c01ManyNames(res *Result) {
 		if got, want := render(e2, fmt.Sprintf("s_%04d", i)), fmt.Sprintf("s%dV", i); got != want {
 			fail(fmt.Sprintf("registered name s_%04d after 1300 registrations", i), want, got)
 			return
+		}
+	}
+}
+
+// c01HeldResults: what a call returned stays what it was while later calls run: the serialised forms of several
+// templates held together, then loaded into another engine; a *Template registered with a second engine, or under a
+// second name in another directory, leaves its first registration rendering as before.
+func c01HeldResults(res *Result) {
+	fail := func(where, want, got, detail string) {
+		res.add(Finding{Kind: "oracle", Where: "held-results/" + where, Case: Case{"stream": "held-results", "scenario": where}, Expected: want, Observed: got, Detail: detail})
+	}
+	res.Hist["stream:held-results"]++
+	// (1) serialised forms
+	a := twig.New()
+	srcs := map[string]string{"one": "first {{ v }} " + strings.Repeat("a", 40), "two": "second {{ v|upper }} " + strings.Repeat("b", 30), "three": "{% for i in [1, 2] %}third{{ i }}{% endfor %}"}
+	names := []string{"one", "two", "three"}
+	blobs := map[string][]byte{}
+	for round := 0; round < 3; round++ {
+		for _, n := range names {
+			a.RegisterString(n, srcs[n])
+			t, err := a.Load(n)
+			if err != nil {
+				return
+			}
+			b, err := t.SaveCompiled()
+			if err != nil {
+				fail("SaveCompiled", "bytes", err.Error(), "")
+				return
+			}
+			blobs[n] = b // kept as returned: no copy
+		}
+		b2 := twig.New()
+		for _, n := range names {
+			res.Evaluations++
+			if err := b2.LoadFromCompiledData(blobs[n]); err != nil {
+				fail("serialised forms of several templates", "loads", "error: "+err.Error(), "three templates serialised one after the other, the results held, then loaded into another engine: "+n)
+				return
+			}
+		}
+		for _, n := range names {
+			want, _ := a.Render(n, map[string]interface{}{"v": "x"})
+			got, err := b2.Render(n, map[string]interface{}{"v": "x"})
+			if err != nil {
+				got = "error: " + err.Error()
+			}
+			if got != want {
+				fail("serialised forms of several templates", want, got, "the serialised form of "+n+" changed while the forms of the other templates were made")
+				return
+			}
+		}
+	}
+	// (2) one template object, two engines
+	mk := func(tag, mark string) *twig.Engine {
+		e := twig.New()
+		e.AddGlobal("site", tag)
+		e.AddFilter("deco", func(v interface{}, _ ...interface{}) (interface{}, error) { return fmt.Sprint(v) + mark, nil })
+		e.RegisterString("footer", "["+tag+" footer]")
+		return e
+	}
+	shop, blog := mk("shop", "!"), mk("blog", "?")
+	shop.RegisterString("page", "{{ site }}: {{ 'hello'|upper|deco }} {% include 'footer' %}")
+	before, _ := shop.Render("page", map[string]interface{}{})
+	if t, err := shop.Load("page"); err == nil {
+		blog.RegisterTemplate("page", t)
+		blog.Render("page", map[string]interface{}{})
+		res.Evaluations++
+		after, err := shop.Render("page", map[string]interface{}{})
+		if err != nil {
+			after = "error: " + err.Error()
+		}
+		if after != before {
+			fail("a template object registered with a second engine", before, after, "the first engine renders the template differently after RegisterTemplate(name, sameObject) on another engine")
+		}
+	}
+	// (3) a second name in another directory
+	ld := twig.NewArrayLoader(map[string]string{"mail/letter.twig": "Dear {{ v }} {% include './footer.twig' %}", "mail/footer.twig": "-- the mail team", "web/footer.twig": "-- the web site"})
+	e3 := twig.New()
+	e3.RegisterLoader(ld)
+	first, ferr := e3.Render("mail/letter.twig", map[string]interface{}{"v": "x"})
+	if t, err := e3.Load("mail/letter.twig"); err == nil && ferr == nil {
+		e3.RegisterTemplate("web/letter.twig", t)
+		e3.Render("web/letter.twig", map[string]interface{}{"v": "x"})
+		res.Evaluations++
+		again, err := e3.Render("mail/letter.twig", map[string]interface{}{"v": "x"})
+		if err != nil {
+			again = "error: " + err.Error()
+		}
+		if again != first {
+			fail("a second name in another directory", first, again, "the first name renders differently after the same template object was registered under a second name")
 		}
 	}
 }
